@@ -263,7 +263,7 @@ func fatal(f string, a ...any) {
 
 type site struct {
 	pkg, v, fn, kind string
-	once             bool
+	once             string // identity of the enclosing Once literal, "" if none
 	loc              string
 }
 
@@ -276,7 +276,7 @@ type addrSite struct {
 
 type typeWrite struct {
 	typ, field, pkg, fn string
-	once                bool
+	once                string
 	loc                 string
 }
 
@@ -294,6 +294,8 @@ type scanner struct {
 	cinits  []callInit
 	guses   []guardedUse
 	used    map[*types.Var]bool
+	callPos map[*ast.Ident]string // identifiers in call position ("call") or passed to Once.Do (the Once identity)
+	decls   []string              // declared functions "<pkg>.<fn>"
 }
 
 // otherCall: a method selected on an expression rooted in a package-level variable where the method
@@ -301,7 +303,7 @@ type scanner struct {
 // holds) or value-receiver method (may mutate through maps/slices/pointers inside the value)
 type otherCall struct {
 	pkg, v, method, kind string // kind = iface | value
-	once                 bool
+	once                 string
 	fn, loc              string
 }
 
@@ -324,7 +326,7 @@ type ptrCall struct {
 	pkg, v, method string
 	modType        bool // receiver type is declared in the module
 	fn             string
-	once           bool
+	once           string
 	loc            string
 }
 
@@ -333,13 +335,15 @@ type funcRef struct {
 	callee  string // "<pkg>.<fn>" in the naming of the tables
 	pkg, fn string // where the reference is
 	initCtx bool   // straight-line body of init / package-level initialiser
+	once    string // inside this Once literal
+	call    bool   // in call position (or the argument of Once.Do); false = the function value escapes
 	loc     string
 }
 
 type fctx struct {
 	name   string
-	exempt bool // straight-line body of init / package initialiser
-	once   bool
+	exempt bool   // straight-line body of init / package initialiser
+	once   string // identity of the enclosing Once literal ("" = none)
 }
 
 func (s *scanner) relpkg(p *types.Package) string {
@@ -530,6 +534,39 @@ func (s *scanner) isBuiltin(f ast.Expr, name string) bool {
 	return ok
 }
 
+// calleeIdent: the identifier that names the function in `f(…)`, `p.f(…)`, `x.m(…)`, `f[T](…)`
+func calleeIdent(e ast.Expr) *ast.Ident {
+	switch x := ast.Unparen(e).(type) {
+	case *ast.Ident:
+		return x
+	case *ast.SelectorExpr:
+		return x.Sel
+	case *ast.IndexExpr:
+		return calleeIdent(x.X)
+	case *ast.IndexListExpr:
+		return calleeIdent(x.X)
+	}
+	return nil
+}
+
+// onceID names the sync.Once of `X.Do(…)`: "<pkg>.<var>" for a package-level Once, "<type>.<field>" for a
+// Once that is a struct field, "?" otherwise
+func (s *scanner) onceID(call *ast.CallExpr) string {
+	sel := call.Fun.(*ast.SelectorExpr)
+	if g := s.globalOf(sel.X); g != nil {
+		vp, vn := s.varName(g)
+		return vp + "." + vn
+	}
+	if fs, ok := ast.Unparen(sel.X).(*ast.SelectorExpr); ok {
+		if se := s.info.Selections[fs]; se != nil && se.Kind() == types.FieldVal {
+			if nt := namedOf(se.Recv()); nt != nil {
+				return typeString(nt) + "." + fs.Sel.Name
+			}
+		}
+	}
+	return "?"
+}
+
 func (s *scanner) isOnceDo(call *ast.CallExpr) bool {
 	sel, ok := call.Fun.(*ast.SelectorExpr)
 	if !ok || sel.Sel.Name != "Do" {
@@ -554,7 +591,15 @@ func (s *scanner) walk(c fctx, n ast.Node, assignedRoots map[*ast.CallExpr]*type
 				s.used[v] = true
 			}
 			if f, ok := s.info.Uses[x].(*types.Func); ok && f.Pkg() != nil && s.l.isModPath(f.Pkg().Path()) {
-				s.refs = append(s.refs, funcRef{callee: s.relpkg(f.Pkg()) + "." + funcName(f), pkg: s.rel, fn: c.name, initCtx: c.exempt, loc: s.loc(x)})
+				r := funcRef{callee: s.relpkg(f.Pkg()) + "." + funcName(f), pkg: s.rel, fn: c.name, initCtx: c.exempt, once: c.once, loc: s.loc(x)}
+				switch cp := s.callPos[x]; cp {
+				case "":
+				case "call":
+					r.call = true
+				default: // argument of Once.Do
+					r.call, r.once, r.initCtx = true, cp, false
+				}
+				s.refs = append(s.refs, r)
 			}
 		case *ast.SelectorExpr:
 			s.selector(c, x)
@@ -598,11 +643,18 @@ func (s *scanner) walk(c fctx, n ast.Node, assignedRoots map[*ast.CallExpr]*type
 				}
 			}
 		case *ast.CallExpr:
+			if id := calleeIdent(x.Fun); id != nil {
+				s.callPos[id] = "call"
+			}
 			if s.isOnceDo(x) && len(x.Args) == 1 {
+				id := s.onceID(x)
 				if fl, ok := x.Args[0].(*ast.FuncLit); ok {
 					// receiver expression is still scanned (ptrcall on a global Once is not a data write)
-					s.walk(fctx{name: c.name + ".func", exempt: false, once: true}, fl.Body, assignedRoots)
+					s.walk(fctx{name: c.name + ".func", exempt: false, once: id}, fl.Body, assignedRoots)
 					return false
+				}
+				if ai := calleeIdent(x.Args[0]); ai != nil {
+					s.callPos[ai] = id // Once.Do(namedFunction)
 				}
 			}
 			for _, b := range []string{"delete", "clear", "copy"} {
@@ -632,7 +684,7 @@ func (s *scanner) selector(c fctx, sel *ast.SelectorExpr) {
 	}
 	switch se.Kind() {
 	case types.FieldVal:
-		if nt := namedOf(se.Recv()); nt != nil && s.l.guarded[typeString(nt)] && !c.once {
+		if nt := namedOf(se.Recv()); nt != nil && s.l.guarded[typeString(nt)] && c.once == "" {
 			s.guses = append(s.guses, guardedUse{typ: typeString(nt), field: sel.Sel.Name, pkg: s.rel, fn: c.name, loc: s.loc(sel)})
 		}
 	case types.MethodVal:
@@ -696,6 +748,7 @@ func (s *scanner) scanFile(f *ast.File) {
 				}
 			}
 			exempt := x.Recv == nil && x.Name.Name == "init"
+			s.decls = append(s.decls, s.rel+"."+name)
 			s.walk(fctx{name: name, exempt: exempt}, x.Body, map[*ast.CallExpr]*types.Var{})
 		case *ast.GenDecl:
 			if x.Tok != token.VAR {
@@ -904,12 +957,13 @@ func main() {
 	var ocalls []otherCall
 	var cinits []callInit
 	var guses []guardedUse
+	var decls []string
 	used := map[*types.Var]bool{}
 	for _, x := range loaded {
 		dir, rel, p := x.dir, x.rel, x.p
 		npk++
 		rels = append(rels, rel)
-		s := &scanner{l: l, pkg: p, info: l.infos[dir], rel: rel, used: used}
+		s := &scanner{l: l, pkg: p, info: l.infos[dir], rel: rel, used: used, callPos: map[*ast.Ident]string{}}
 		for _, imp := range p.Imports() {
 			if l.isModPath(imp.Path()) {
 				imports[rel] = append(imports[rel], s.relpkg(imp))
@@ -932,6 +986,7 @@ func main() {
 		ocalls = append(ocalls, s.ocalls...)
 		cinits = append(cinits, s.cinits...)
 		guses = append(guses, s.guses...)
+		decls = append(decls, s.decls...)
 	}
 	if len(l.modErrs) > 0 {
 		for i, e := range l.modErrs {
